@@ -244,7 +244,78 @@ func runScopeSeq(c *Ctx, mode int, cached bool, shards uint, ops []seqOp) bool {
 	return true
 }
 
+// runManyMetrics: one scope with many metrics of one kind (beyond any initial capacity of the scope's bookkeeping):
+// every one of them is created and used, a pass runs, every one is used again THROUGH THE HANDLE OBTAINED AT FIRST and
+// through a fresh look-up, a pass runs: the counters' deliveries add up to what was added, every gauge's most recent
+// delivery is its last update.
+func runManyMetrics(c *Ctx, gauges, cached bool, n int) {
+	w := newWorld(cached, 0, 1, false)
+	sc := w.root.SubScope("many")
+	line := fmt.Sprintf("cached=%v: %d %s on one scope; each created and used; pass; each used again through its first handle and through a second look-up; pass; root Close", cached, n, map[bool]string{false: "counters", true: "gauges"}[gauges])
+	cs := make([]tally.Counter, n)
+	gs := make([]tally.Gauge, n)
+	for i := 0; i < n; i++ {
+		name := fmt.Sprintf("m%02d", i)
+		if gauges {
+			gs[i] = sc.Gauge(name)
+			gs[i].Update(float64(i) + 0.25)
+		} else {
+			cs[i] = sc.Counter(name)
+			cs[i].Inc(int64(i + 1))
+		}
+	}
+	tally.VerifReportOnce(w.root)
+	for i := 0; i < n; i++ {
+		name := fmt.Sprintf("m%02d", i)
+		if gauges {
+			gs[i].Update(float64(i) + 0.5)
+			if i%3 == 0 {
+				sc.Gauge(name).Update(float64(i) + 0.75)
+			}
+		} else {
+			cs[i].Inc(1000)
+			sc.Counter(name).Inc(100000)
+		}
+	}
+	tally.VerifReportOnce(w.root)
+	w.closer.Close()
+	if gauges {
+		last := map[string]string{}
+		for _, d := range w.gaugeDeliveries() {
+			last[d[0]] = d[1]
+		}
+		for i := 0; i < n; i++ {
+			want := float64(i) + 0.5
+			if i%3 == 0 {
+				want = float64(i) + 0.75
+			}
+			if got := last[fmt.Sprintf("many.m%02d|-", i)]; got != f64hex(want) {
+				c.Cov.Fail(Failure{Kind: "violated", Clause: "latest-value-delivered", Signature: "scopeseq-many-gauges", Line: line,
+					Reply: fmt.Sprintf("gauge many.m%02d: last update %v (%s), most recent delivery %q", i, want, f64hex(want), got)})
+				break
+			}
+		}
+	} else {
+		got, _ := w.delivered()
+		for i := 0; i < n; i++ {
+			want := int64(i+1) + 1000 + 100000
+			if g := got[fmt.Sprintf("many.m%02d", i)]; g != want {
+				c.Cov.Fail(Failure{Kind: "violated", Clause: "recorded-on-an-open-scope-delivered-exactly-once", Signature: "scopeseq-many-counters", Line: line,
+					Reply: fmt.Sprintf("counter many.m%02d: %d added, %d delivered", i, want, g)})
+				break
+			}
+		}
+	}
+	c.Cov.Hit(fmt.Sprintf("many-metrics.%d", n))
+	c.Cov.Eval(line, true)
+}
+
 func suiteScopeSeq(c *Ctx, gauges bool) {
+	for _, cached := range []bool{false, true} {
+		for _, n := range []int{15, 16, 17, 33, 65, 200} {
+			runManyMetrics(c, gauges, cached, n)
+		}
+	}
 	c.Cov.Rule = "EXHAUSTIVE over sequential histories: all well-formed sequences of up to L operations (quick L=6, thorough L=7) over {increment a counter (gauge mode: update a gauge with a fresh value; timer mode: record on a timer) through the root / S / T handle, Close S or T, obtain S or T again through the current handle of its parent, report pass, root Close} on root, S = root.SubScope(s), T = S.Tagged(k:v); plain and cached closable reporters, 1 and 2 shards; then two passes and the root's Close; oracles: conservation per name over increments made through open scopes, inert scopes (from a closed parent / after the root's Close) deliver nothing, nothing reaches the reporter after the root's Close, a second Close returns nil; timer mode: one timer delivery per record through a handle that is not inert (also after the root's Close, as C10 says), none through an inert scope; gauge mode (C02, sequentially): every delivered value was passed to Update on that gauge through an open scope, never more deliveries than updates, the most recent delivery is the last update; nontrivial = an operation follows a Close; distinct by history"
 	c.Cov.Exhaustive = true
 	maxLen := 6
